@@ -17,7 +17,7 @@ from wbgen import a1, col_letters, sheet_ref
 
 NAME = 'execsim'
 # probes that count as injected disturbances (reported under faults_fired in the evidence)
-FAULT_PROBES = ('evaluation_failed_mid_history', 'get_sheet_aborted_by_failing_cell', 'clock_step')
+FAULT_PROBES = ('env_calendar_firstweekday_changed', 'env_decimal_context_changed', 'env_warnings_filter_changed', 'evaluation_failed_mid_history', 'get_sheet_aborted_by_failing_cell', 'clock_step')
 NEEDS_REF = True
 WB_PATH = '/simfs/w.xlsx'
 FROZEN_NS = 1_718_000_000 * 10**9   # 2024-06-10T06:13:20Z — the frozen instant of execsim runs
@@ -29,8 +29,13 @@ FROZEN_NS = 1_718_000_000 * 10**9   # 2024-06-10T06:13:20Z — the frozen instan
 class _G:
     """Formula-template helper bound to one (rng, spec-in-progress)."""
 
-    def __init__(self, r, titles, dims, here, wholecol):
+    def __init__(self, r, titles, dims, here, wholecol, pad=0):
         self.r, self.titles, self.dims, self.here, self.wholecol = r, titles, dims, here, wholecol
+        self.pad = pad      # bounded ranges may run this many rows past the used area ("A1:A1000 over a dozen rows")
+
+    def _end(self, last_row_index):
+        """1-based last row of a bounded range whose data end at last_row_index (0-based)."""
+        return last_row_index + 1 + (self.pad if self.pad and self.r.random() < 0.6 else 0)
 
     def _sheet(self):
         # mostly the formula's own sheet
@@ -69,12 +74,17 @@ class _G:
             return '%s%s:%s' % (self._pref(s), col_letters(cc), col_letters(cc))
         r0 = 0 if full else self.r.randrange(rws)
         r1 = rws - 1 if full else self.r.randrange(r0, rws)
-        return '%s%s%d:%s%d' % ('' if plain else self._pref(s), col_letters(cc), r0 + 1, col_letters(cc), r1 + 1)
+        end = self._end(r1) if (self.pad and r1 == rws - 1) else r1 + 1
+        return '%s%s%d:%s%d' % ('' if plain else self._pref(s), col_letters(cc), r0 + 1, col_letters(cc), end)
 
     def own_col(self):
         """Unprefixed, bounded, full-height column of the formula's own sheet (SUMIF-style functions
         derive one range from another and choke on prefixes / whole columns)."""
-        return self.colrange(self.here, full=True, plain=True)
+        c, rws = self._d(self.here)
+        if not hasattr(self, '_own_end'):
+            self._own_end = self._end(rws - 1)          # one length for all ranges of one formula (SUMIFS needs equal sizes)
+        col = col_letters(self.r.randrange(c))
+        return '%s1:%s%d' % (col, col, self._own_end)
 
     def own_cell(self):
         c, rws = self._d(self.here)
@@ -187,7 +197,7 @@ def gen_workbook(r, cfg):
         for i in range(n_here):
             rr = i % 8
             cc = fcol + i // 8
-            g = _G(r, titles, dims, s, wholecol)
+            g = _G(r, titles, dims, s, wholecol, cfg.get('pad', 0))
             names = [t[0] for t in TEMPLATES]
             weights = [t[2] for t in TEMPLATES]
             k = r.random()
@@ -336,6 +346,8 @@ def gen_plan(seed, cfg):
         'dup_in_batch': r.random() < 0.25,
         'many': r.random() < 0.2,
     }
+    rp = core.rng(seed, 'execsim', mode, 'pad')
+    swarm['pad'] = rp.choice([0, 0, 1, 2, 3]) if swarm['beyond'] else 0
     swarm.update(cfg.get('swarm', {}))
     spec, meta = gen_workbook(r, swarm)
     dims = spec_dims(spec)
@@ -345,7 +357,7 @@ def gen_plan(seed, cfg):
     for f, ps in prec.items():
         for p in ps:
             dependants.setdefault(p, []).append(list(f))
-    plan = {'engine': NAME, 'mode': mode, 'seed': seed, 'swarm': swarm, 'spec': spec, 'meta': meta, 'ops': []}
+    plan = {'engine': NAME, 'mode': mode, 'seed': seed, 'swarm': swarm, 'spec': spec, 'meta': meta, 'ops': [], 'env': core.gen_env(seed)}
     ops = plan['ops']
     written = []          # targets written so far (any executor)
     last = {}             # (ex, target) -> last value
@@ -416,6 +428,29 @@ def gen_plan(seed, cfg):
             else:
                 ops.append(gen_query(ex, client))
         ops.append(gen_query(0, 0))
+        # callers that re-send state they sent before (own stream): right after a batch, the same batch again - whole,
+        # a part of it, or an empty list - with or without a query in between.  Nothing may change, and nothing
+        # that was pending may get lost.
+        rs = core.rng(seed, 'execsim', 'c04', 'resend')
+        out_ops = []
+        for op in ops:
+            out_ops.append(op)
+            if op['op'] == 'set' and rs.random() < 0.2:
+                k = rs.random()
+                import copy as _copy
+                if k < 0.25:
+                    again = {'op': 'set', 'ex': op['ex'], 'client': op['client'], 'cells': []}
+                elif k < 0.6:
+                    again = _copy.deepcopy(op)
+                else:
+                    again = _copy.deepcopy(op)
+                    again['cells'] = again['cells'][:max(1, len(again['cells']) // 2)]
+                again['resend'] = True
+                if rs.random() < 0.3 and op['cells']:
+                    c0 = rs.choice(op['cells'])
+                    out_ops.append({'op': 'get', 'ex': op['ex'], 'client': op['client'], 'at': list(c0['tg']), 'tg': list(c0['tg'])})
+                out_ops.append(again)
+        ops[:] = out_ops
         if swarm['reuse']:
             _mark_reuse(r, ops)
     else:  # c08: overrides once (one write per cell per executor), then queries only
@@ -524,7 +559,10 @@ def run(req, ctx):
     simclock.set_tz('UTC0')
     simclock.set_step_ns(0)
     simclock.set_ns(FROZEN_NS)
+    env_fired = core.apply_env(plan.get('env'))      # process-global stdlib settings of an embedding application (the reference gets the same)
     res = execute(plan, ctx)
+    for k_, v_ in env_fired.items():
+        res.setdefault('probes', {})[k_] = v_
     if req.get('want_plan') or res['mismatches']:
         res['plan'] = plan
     if not req.get('want_log'):
@@ -634,7 +672,8 @@ def _okey(tg):
 def _ref_c04(ctx, plan, omap):
     """omap: {okey: value}.  Returns the reference response for W[O]."""
     overrides = sorted([[int(x) for x in k.split(':')] + [v] for k, v in omap.items()], key=lambda o: o[:3])
-    return ctx['ref']({'kind': 'c04', 'spec': plan['spec'], 'overrides': overrides, 'grid': plan['grid'], 'ns': FROZEN_NS})
+    return ctx['ref']({'kind': 'c04', 'spec': plan['spec'], 'overrides': overrides, 'grid': plan['grid'], 'ns': FROZEN_NS,
+                       'env': plan.get('env') or {}})
 
 
 def _expect_cell(ref, tg):
@@ -657,6 +696,8 @@ def _check_c04(plan, log, ctx, probe, dims):
             if ent['out'] != ['ok']:
                 mism.append({'key': 'set-raised', 'op': ent['i'], 'observed': ent['out'], 'expected': ['ok']})
                 continue
+            if op.get('resend'):
+                probe('batch_sent_again' if op['cells'] else 'empty_batch')
             batch = {}
             for c in op['cells']:
                 batch.setdefault(_okey(c['tg']), []).append(c['v'])
@@ -868,7 +909,7 @@ def _check_c08(plan, log, ctx, probe, dims, src, final, sizes0, exs):
 
     def iso(e, ns):
         overrides = sorted([[int(x) for x in k.split(':')] + [v] for k, v in O[e].items()], key=lambda o: o[:3])
-        return ctx['ref']({'kind': 'iso', 'src': src, 'overrides': overrides, 'grid': plan['grid'], 'ns': ns})
+        return ctx['ref']({'kind': 'iso', 'src': src, 'overrides': overrides, 'grid': plan['grid'], 'ns': ns, 'env': plan.get('env') or {}})
 
     # expected grid shape: used range of the SPEC extended by the overrides
     def shape(e, s):
@@ -974,6 +1015,9 @@ def ref_handle(req):
     simclock.set_step_ns(0)
     simclock.set_ns(req.get('ns', FROZEN_NS))
     simfs.reset()
+    # C04 / C08 compare the library with itself: "a fresh translation" and "a pristine executor" live in the same
+    # application, so they see the same interpreter-wide settings as the history under test
+    core.apply_env(req.get('env'))
     if req['kind'] == 'c04':
         spec2 = wbgen.apply_overrides(req['spec'], req['overrides'])
         data = wbgen.build_bytes(spec2)
@@ -1063,6 +1107,10 @@ def shrink(plan):
                 new = copy.deepcopy(ops)
                 new[i] = {'op': 'get', 'ex': op['ex'], 'client': op['client'], 'at': c['at'], 'tg': c['tg']}
                 yield with_ops(new)
+    if plan.get('env'):
+        p = copy.deepcopy(plan)
+        p['env'] = {}
+        yield p
     # one executor
     if plan['swarm']['n_ex'] > 1:
         p = copy.deepcopy(plan)
